@@ -11,7 +11,7 @@ open RpcVerif RpcVerif.Proto
 
 /-- Thread events that may be enabled in `s` (environment events excluded), in a fixed order. -/
 def threadEvents (s : State) : List Ev :=
-  [.seeClose, .decode] ++ s.ids.map (fun k => .sendLock k) ++ s.ids.map (fun k => .sendUnreg k)
+  [.seeClose] ++ (if s.decHeld then [] else [.decode]) ++ s.ids.map (fun k => .sendLock k) ++ s.ids.map (fun k => .sendUnreg k)
     ++ s.ids.map (fun k => .sendFail k) ++ s.ids.map (fun k => .finish k)
     ++ [.runDone, .sweep, .closeSendQ, .closeFinQ] ++ s.ids.map (fun k => .wake k)
 
@@ -62,6 +62,10 @@ def insertStr (x : String) : List String → List String
   | [] => [x]
   | y :: ys => if x ≤ y then x :: y :: ys else y :: insertStr x ys
 
+def insertNatOnly (x : Nat) : List Nat → List Nat
+  | [] => [x]
+  | y :: ys => if x ≤ y then x :: y :: ys else y :: insertNatOnly x ys
+
 def insertNat (x : Nat × String) : List (Nat × String) → List (Nat × String)
   | [] => [x]
   | y :: ys => if x.1 ≤ y.1 then x :: y :: ys else y :: insertNat x ys
@@ -79,9 +83,10 @@ def obs (s : State) : String :=
   let ws := s.writes.map fun (k, q, u) => s!"{k}:{q}:{if u == 0 then "-" else hex2 u}"
   let parked := ((callList s).foldl (fun acc c =>
       let acc := if c.phase == .atWrite then insertStr s!"w:{c.k}" acc else acc
-      if c.holdB && isRunningFin s c.k then insertStr s!"b:{c.k}" acc else acc) [])
+      if c.holdB && isRunningFin s c.k then insertStr s!"b:{c.k}" acc else acc)
+      (if s.decHeld && !s.decodeQ.isEmpty then ["dec"] else []))
   let cs := ((callList s).foldl (fun acc c => insertNat (c.k, callStr s c) acc) []).map (·.2)
-  let arr := s.arrivals.map toString
+  let arr := (if s.cfg.pipe then s.arrivals else s.arrCanon).map toString
   let cl := s.closeRet.map errStr
   s!"obs nc={s.pending.length} w=[{",".intercalate ws}] parked=[{",".intercalate parked}] calls=[{" ".intercalate cs}] arr=[{",".intercalate arr}] close=[{",".intercalate cl}]"
 
@@ -105,16 +110,18 @@ def drain : Nat → State → State
   | fuel + 1, s =>
     let keys := ((callList s).foldl (fun acc c =>
       let acc := if c.phase == .atWrite then insertStr s!"w:{c.k}" acc else acc
-      if c.holdB && isRunningFin s c.k then insertStr s!"b:{c.k}" acc else acc) [])
+      if c.holdB && isRunningFin s c.k then insertStr s!"b:{c.k}" acc else acc)
+      (if s.decHeld && !s.decodeQ.isEmpty then ["dec"] else []))
     match keys with
     | [] => s
     | key :: _ =>
       let k := (key.drop 2).toString.toNat?.getD 0
-      let s := if key.startsWith "w:" then env s (.wret k true) else env s (.brel k)
+      let s := if key == "dec" then { s with decHeld := false }
+               else if key.startsWith "w:" then env s (.wret k true) else env s (.brel k)
       drain fuel (settled s)
 
 def unholdAll (s : State) : State :=
-  { s with calls := fun k => (s.calls k).map fun c => { c with holdB := false, holdW := if c.phase == .atWrite then c.holdW else false } }
+  { s with decHeld := false, calls := fun k => (s.calls k).map fun c => { c with holdB := false, holdW := if c.phase == .atWrite then c.holdW else false } }
 
 /-- One script action. Returns the new state (after settling). -/
 def action (s : State) (toks : List String) : Option State :=
@@ -159,6 +166,8 @@ def action (s : State) (toks : List String) : Option State :=
   | ["close"] => some (settled (env s .close))
   | ["cancel", k] => k.toNat?.map fun k => settled (env s (.cancel k))
   | ["probe"] => some s
+  | ["holddec"] => some { s with decHeld := true }
+  | ["reldec"] => some (settled { s with decHeld := false })
   | ["drain"] => some (unholdAll (drain 10000 s))
   | _ => none
 
@@ -176,7 +185,10 @@ def connStep (st : Option State) (toks : List String) : Option State × String :
     | none => (none, "bad-op")
     | some s =>
       match action s toks with
-      | some s' => (some s', if checkInv s' && s'.invOk then obs s' else "INVARIANT-VIOLATED " ++ obs s')
+      | some s' =>
+        let fresh := s'.arrivals.drop s.arrivals.length
+        let s' := { s' with arrCanon := s.arrCanon ++ fresh.foldl (fun acc k => insertNatOnly k acc) [] }
+        (some s', if checkInv s' && s'.invOk then obs s' else "INVARIANT-VIOLATED " ++ obs s')
       | none => (some s, "bad-op")
 
 end RpcVerif.K
